@@ -75,7 +75,7 @@ static void on_point(int id, long a, long b) {
   int bm = g_block_mode.load(std::memory_order_relaxed);
   if (id == PT_BLOCK_BUILT && bm) {
     long nb = std::max<long>(1, g_nblocks_hint.load());
-    long unit = std::max<long>(50, D);
+    long unit = (nb <= 16 && (bm == 1 || bm == 2)) ? 3000 : std::max<long>(50, D); // few blocks: make the forced order dominate the build times
     long d = 0;
     if (bm == 1) d = (nb - 1 - std::min(a, nb - 1)) * unit;            // reversed completion order
     else if (bm == 2) d = ((a + nb / 2) % nb) * unit;                    // rotated
@@ -301,7 +301,8 @@ static int mode_blocks(const std::string &input, long schedules, uint64_t seed, 
     long nblocks = 0;
     for (size_t k = 0; k < nref; k++) if (g_ev[k].id == PT_BLOCK_RETURN) nblocks = g_ev[k].a;
     delete ref;
-    // the schedule under test
+    // the schedule under test (a fully reversed completion order needs as many workers as blocks)
+    if ((bm == 1 || bm == 2) && nblocks >= 2 && nblocks <= 16 && threads < nblocks) threads = (int)nblocks;
     P.p3 = threads;
     std::string sched;
     uint64_t ps = mix(seed, (uint64_t)s);
